@@ -321,9 +321,13 @@ def generated_search(check, tier, seed, examples, known_sigs, stats, wall_budget
             fresh = []
             for sig, msg in obs.violations:
                 if signature_matches(sig, known_sigs):
-                    if not shrinking:
-                        stats.known_hits[sig] += 1
-                    continue
+                    if _region_is_exact(check, sig):
+                        # the case was not excluded, i.e. it lies outside the region of the known finding: a different violation
+                        sig, msg = sig + OUTSIDE, msg + " [signature of a known finding, but this case lies outside the region that finding is recorded for]"
+                    else:
+                        if not shrinking:
+                            stats.known_hits[sig] += 1
+                        continue
                 if sig in muted:
                     continue
                 fresh.append((sig, msg))
@@ -372,14 +376,29 @@ def generated_search(check, tier, seed, examples, known_sigs, stats, wall_budget
 # --------------------------------------------------------------------------------------------------
 # top-level driver
 # --------------------------------------------------------------------------------------------------
+OUTSIDE = "/outside-known-region"
+
+
+def _region_is_exact(check, sig):
+    """
+    A known finding is identified by its signature *and* the region of cases it is recorded for (is_excluded). Checks whose region
+    predicate cannot tell for some signature (e.g. regions that depend on where an injected crash happened to hit) name it in INEXACT_REGIONS.
+    """
+    return getattr(check, "is_excluded", None) is not None and not signature_matches(sig, set(getattr(check, "INEXACT_REGIONS", ())))
+
+
 def run_cases_directly(check, cases, known_sigs, stats, label, keep_sample=False):
+    is_excluded = getattr(check, "is_excluded", None)
     for case in cases:
         obs = execute(check, case)
         stats.record(case, obs, keep_sample=keep_sample)
+        inside = is_excluded is not None and bool(known_sigs) and is_excluded(case, known_sigs)
         for sig, msg in obs.violations:
             if signature_matches(sig, known_sigs):
-                stats.known_hits[sig] += 1
-                continue
+                if inside or not _region_is_exact(check, sig):
+                    stats.known_hits[sig] += 1
+                    continue
+                sig, msg = sig + OUTSIDE, msg + " [signature of a known finding, but this case lies outside the region that finding is recorded for]"
             if not any(v["signature"] == sig for v in stats.violations):
                 stats.violations.append({"signature": sig, "message": msg, "case": jsonable(case), "origin": label})
 
@@ -491,9 +510,13 @@ def main(check, argv=None):
                 obs = execute(check, rp["case"])
                 stats.replayed += 1
                 stats.record(rp["case"], obs, keep_sample=False)
+                excl = getattr(check, "is_excluded", None)
+                inside = excl is not None and bool(known_sigs) and excl(rp["case"], known_sigs)
                 for s, m in obs.violations:
                     if signature_matches(s, known_sigs):
-                        continue
+                        if inside or not _region_is_exact(check, s):
+                            continue
+                        s = s + OUTSIDE
                     if not any(v["signature"] == s for v in stats.violations):
                         stats.violations.append({"signature": s, "message": m, "case": jsonable(rp["case"]), "origin": f"replay:{name}"})
 
